@@ -21,6 +21,7 @@ import warnings
 from .. import tlc
 
 PW, PW2 = "p\xe4ssword-1", "other"
+PW_OF = {}          # (scheme, variant tag) -> the password of that generated hash, when it is not PW / PW2
 
 
 def contexts():
@@ -64,7 +65,8 @@ def variants(name, h):
     if "realm" in h.context_kwds:
         ctxkw["realm"] = "realm"
 
-    def add(tag, fn):
+    def add(tag, fn, pw=None):
+        PW_OF[(name, tag)] = pw
         try:
             v = fn()
             if isinstance(v, bytes):
@@ -80,10 +82,17 @@ def variants(name, h):
         return out
     add("default", lambda: h.using(**kw).hash(PW, **ctxkw))
     add("second", lambda: h.using(**kw).hash(PW2, **ctxkw))
+    if name != "ldap_plaintext":          # (documented: the empty string is not a valid ldap_plaintext value)
+        add("empty-password", lambda: h.using(**kw).hash("", **ctxkw), pw="")
+    if name in ("plaintext", "ldap_plaintext", "roundup_plaintext"):
+        # stored plaintext passwords that look like disabled-account markers (a password that looks like another scheme's hash is
+        # shadowed by construction - the catch-all is listed last for that reason - and is not demanded)
+        for tag, p_ in (("bang", "!bang"), ("star", "*starred")):
+            add("looks-like-" + tag, lambda p_=p_: h.hash(p_), pw=p_)
     for ident in getattr(w, "ident_values", None) or ():
         add(f"ident={ident}", lambda ident=ident: h.using(ident=ident, **kw).hash(PW, **ctxkw))
-    if getattr(w, "max_salt_size", None) is not None and getattr(w, "min_salt_size", None) is not None:
-        for sz in {w.min_salt_size, w.max_salt_size}:
+    if getattr(w, "min_salt_size", None) is not None and "salt_size" in h.setting_kwds:
+        for sz in {w.min_salt_size, w.max_salt_size if w.max_salt_size is not None else w.default_salt_size, w.default_salt_size}:
             if sz is not None and sz <= 64:
                 add(f"salt_size={sz}", lambda sz=sz: h.using(salt_size=sz, **kw).hash(PW, **ctxkw))
     if "rounds" in h.setting_kwds and w.rounds_cost == "linear" and w.min_rounds <= 5000 <= (w.max_rounds or 10 ** 9):
@@ -179,6 +188,9 @@ def run(chk):
                           {"context": cname, "order": order[cname], "hash": text, "identify": got, "first_claimant": first})
         elif first == s and s not in ("unix_disabled", "django_disabled"):
             pw = PW2 if hid.endswith("/second") else PW
+            special = PW_OF.get((s, hid.split("/", 1)[1]))
+            if special is not None:
+                pw = special
             kw = {}
             hd = registry.get_crypt_handler(s)
             if "user" in hd.context_kwds:
